@@ -240,7 +240,29 @@ def check_history(case):
     return OK(len(case["ops"]) >= 4, "history")
 
 
-CHECKS = {"basis": check_basis, "history": check_history}
+def check_long_memo(case):
+    """A long basis element L (9-11 points) evaluated first as the element that completes a
+    basis, then in bases where a class comes from L alone: the per-permutation memo must hold
+    the full set of classes of L, whatever was already known when L was first seen."""
+    L = tuple(case["L"])
+    shorts = [tuple(p) for p in case["shorts"]]
+    subsets = [[shorts[i] for i in range(len(shorts)) if m >> i & 1] for m in case["masks"]]
+    # L always comes last (so that it is first evaluated with classes already known); the
+    # L-first order is only used at the very end, once every subset has been asked
+    sequence = [sub + [L] for sub in subsets] + [[L] + sub for sub in subsets[:4]]
+    for step, order in enumerate(sequence):
+        if True:
+            for fname in ("is_insertion_encodable_rightmost", "is_insertion_encodable_maximum", "is_insertion_encodable", "is_polynomial"):
+                fn, oracle = FUNCS[fname]
+                got = fn([Perm(p) for p in order])
+                want = oracle(order)
+                if got != want:
+                    return BAD("long_memo_" + fname, {"step": step, "basis": [list(p) for p in order], "got": got, "want": want})
+    types_of_L = [name for name in TEN if in_class(L, name)]
+    return OK(len(types_of_L) >= 2, f"long_memo_types{min(len(types_of_L), 4)}")
+
+
+CHECKS = {"basis": check_basis, "history": check_history, "long_memo": check_long_memo}
 
 
 # ------------------------------------------------------------------ generators
@@ -320,6 +342,42 @@ def history_cases(draw):
     return {"pool": pool, "ops": [list(o) for o in ops]}
 
 
+@st.composite
+def long_memo_cases(draw):
+    n = draw(st.integers(9, 11))
+    kind = draw(st.sampled_from(["juxt", "juxt", "l2", "monotone_plus"]))
+    if kind == "l2":
+        out, i = [], 0
+        while i < n:
+            if i + 1 < n and draw(st.booleans()):
+                out += [i + 1, i]
+                i += 2
+            else:
+                out.append(i)
+                i += 1
+        p = tuple(out)
+    elif kind == "monotone_plus":
+        base = list(range(n - 2)) if draw(st.booleans()) else list(range(n - 3, -1, -1))
+        p = ref.std(tuple(base + [draw(st.integers(-1, n)) + 0.5, draw(st.integers(-1, n)) + 0.25]))
+    else:
+        k = draw(st.integers(1, n - 1))
+        left = sorted(draw(st.lists(st.integers(0, n - 1), min_size=k, max_size=k, unique=True)), reverse=draw(st.booleans()))
+        right = sorted(set(range(n)) - set(left), reverse=draw(st.booleans()))
+        p = tuple(left + right)
+    L = list(ref.sym_perm(draw(st.sampled_from(ref.SYMS)), p))
+    # short companions lying in exactly one of the four P classes (resp. V classes): L is first
+    # seen next to all of them (everything already known), afterwards next to every proper subset,
+    # so that any class of L dropped at its first evaluation is needed from L alone later
+    singles = []
+    for group in (sorted(P_CLASSES), sorted(V_CLASSES)):
+        for name in group:
+            cands = [p for p in members()[name] if sum(1 for other in group if tuple(p) in map(tuple, members()[other])) == 1]
+            singles.append(list(draw(st.sampled_from(cands))))
+    by_size = sorted(range(15), key=lambda m: -bin(m).count("1"))  # the 3-subsets first, the empty set last
+    masks = [m | 0xF0 for m in by_size] + [0x0F | (m << 4) for m in by_size] + [0]
+    return {"L": L, "shorts": singles, "masks": masks}
+
+
 def shard_exhaustive(acc, shard, nshards, max_len, max_size):
     pats = [list(p) for p in ref.perms_upto(max_len, 1)]
     i = 0
@@ -333,6 +391,7 @@ def shard_exhaustive(acc, shard, nshards, max_len, max_size):
 def shard_generated(acc, shard, nshards, n_basis, n_hist, nmax):
     engine.hyp_run(acc, "basis", check_basis, basis_cases(4 if nmax <= 7 else 12, nmax), n_basis, shard)
     engine.hyp_run(acc, "history", check_history, history_cases(), n_hist, shard)
+    engine.hyp_run(acc, "long_memo", check_long_memo, long_memo_cases(), max(10, n_hist // 4), shard)
 
 
 def run(acc, tier):
